@@ -21,9 +21,17 @@ macro_rules! constr {
 }
 
 pub fn constr(index: u64, fields: Vec<PlutusData>) -> PlutusData {
+    // alternatives 0..=6 use the compact tags 121..=127, 7..=127 the tags
+    // 1280..=1400 and anything beyond the general form (tag 102)
+    let (tag, any_constructor) = match index {
+        0..=6 => (121 + index, None),
+        7..=127 => (1280 + (index - 7), None),
+        _ => (102, Some(index)),
+    };
+
     PlutusData::Constr(Constr {
-        tag: 121 + index,
-        any_constructor: None,
+        tag,
+        any_constructor,
         fields: MaybeIndefArray::Def(fields),
     })
 }
